@@ -98,6 +98,7 @@ static int selecttimeout;		/* RFC says timeout minimum 5sec */
 static int lazymode;
 static long send_ping_soon;
 static time_t lastdownstreamtime;
+static time_t lastchunktime;
 static long send_query_sendcnt = -1;
 static long send_query_recvcnt = 0;
 static int hostname_maxlen = 0xFF;
@@ -377,6 +378,7 @@ send_chunk(int fd)
 		outpkt.sentlen);
 #endif
 
+	lastchunktime = time(NULL);
 	send_query(fd, buf);
 }
 
@@ -1127,6 +1129,14 @@ client_tunnel(int tun_fd, int dns_fd)
 
 		if (i < 0)
 			err(1, "select");
+
+		if (i > 0 && is_sending() && FD_ISSET(tun_fd, &fds) &&
+		    lastchunktime + 1 < time(NULL)) {
+			/* We only empty the tun device here; a busy tun must
+			   not keep restarting the retransmit timeout. */
+			tunnel_tun(tun_fd, dns_fd);
+			i = 0;
+		}
 
 		if (i == 0) {
 			/* timeout */
